@@ -5,7 +5,7 @@ harness("h_c17", ["harness/h_c17.cc"], libs=("xtp",))
 
 PROPS["C17"] = dict(
     parts=[rc("h_c17", quick=dict(cases=6000, procs=8, budget_s=600),
-              thorough=dict(cases=240000, procs=16, budget_s=1500))],
+              thorough=dict(cases=120000, procs=16, budget_s=1500))],
     rule=("statemachine: generated sequences (2..24 steps) of reopen(READ|MODIFY|CREATE) / write(path,name,value) / read-of-a-never-written-name over one "
           "checkpoint file; values: Index/int/unsigned/double(+-0, denormal, inf, nan payloads)/bool/string(empty, UTF-8, control characters, 10 kB), "
           "vector<Index|int|double|string>, MatrixXd 0x0..300x300 incl. Nx0/0xN/1xN/Nx1, VectorXd, Vector3d, vector<Vector3d>, CptTable rows of "
